@@ -36,6 +36,8 @@ CLAIMED = {
    text="TLC checks that the transcribed parser and the declarative definition of a nested-meta list agree on every token-class string up to the bound, and that for all 128 override sets the dispatch machine routes every item form to exactly one hook or the documented default rejection with the error spanned on the way out; each string is materialised and parsed by the real parse_meta_list (verdict, order, classification, print/re-parse identity), and each routing case is executed on a real probe implementer that logs its calls."),
  "C11": dict(engine="Scalars", design_ref="4.3, 5/C11", technique="TLA+ specs (Scalars.tla: symbolic integer literals over every type boundary; ScalarsConcrete.tla: concrete 8/16-bit range; ScalarForms.tla: default dispatch restricted to each target's hooks) model-checked with TLC against the declarative 'standard parsing accepts it / denoted value' rule; every case converted by the real impls; float values bit-compared with std",
    text="TLC checks the transcribed from_meta_num!/float/bool/char/String conversions against the declarative rule for all 24 integer targets x every boundary +-2 x every spelling, for the 8/16-bit targets over a concrete range, and for every scalar target x form x literal kind; each case is converted by the real implementation (exact value, spanned error, no panic); float values are compared bit for bit with str::parse on seeded texts including ones beside f32 rounding midpoints."),
+ "C12": dict(engine="Wrappers", design_ref="4.3, 5/C12", technique="TLA+ spec (Wrappers.tla: implementers as terms, each wrapper overriding exactly the entry points of its impl block, abstract inner target) model-checked with TLC: transparency law for every abstract base target under every wrapper chain; replayed differentially (W<T> vs T on the same item) on real inner targets and probe implementers",
+   text="TLC checks, for all 2048 abstract inner targets (any subset of the trait's entry points overridden, four acceptance predicates, with or without a value-for-absent) and every chain of one or two wrappers, that the outer conversion accepts exactly what the inner accepts, holds its value, fails with its error, with only the stated exceptions (Override on the bare word, the two Result forms never failing, absent-item rules); every chain x form is then instantiated over 13 real targets and 16 probe implementers and the real outer outcome is compared with the law applied to the real inner outcome (value, error, span, hooks called, SpannedValue range, WithOriginal copy, from_none)."),
 }
 
 NOT_YET = "check not built yet (planned, see DESIGN.md section 5)"
